@@ -22,6 +22,7 @@ import (
 	"strconv"
 	"strings"
 	"sync"
+	"syscall"
 	"time"
 )
 
@@ -124,6 +125,17 @@ func build(race bool) (scratch, worker, inputHash string) {
 	if st, err := os.Stat(base); err != nil || !st.IsDir() {
 		base = filepath.Join(verifDir, ".build")
 		os.MkdirAll(base, 0o755)
+	}
+	// The build reads /repo's working tree. scripts/seed_eval.py holds this lock exclusively
+	// while a seeded change is applied to /repo, so that a concurrently started check never
+	// builds a half-applied or seeded tree.
+	if os.Getenv("VERIF_NOLOCK") == "" {
+		if lf, err := os.OpenFile(filepath.Join(base, "verif-repo.lock"), os.O_CREATE|os.O_RDWR, 0o666); err == nil {
+			if syscall.Flock(int(lf.Fd()), syscall.LOCK_SH) == nil {
+				defer syscall.Flock(int(lf.Fd()), syscall.LOCK_UN)
+			}
+			defer lf.Close()
+		}
 	}
 	scratch, err := os.MkdirTemp(base, "verif-")
 	if err != nil {
@@ -262,7 +274,7 @@ func runCheck(prop, tier, only string, budgetOverride time.Duration) int {
 	if only != "" {
 		var js []json.RawMessage
 		for i, j := range jobs {
-			if jobMeta[i].Name == only {
+			if jobMeta[i].Name == only || (strings.HasSuffix(only, "*") && strings.HasPrefix(jobMeta[i].Name, only[:len(only)-1])) {
 				js = append(js, j)
 			}
 		}
